@@ -46,7 +46,7 @@ pub const PUNCT: &[(&str, &str)] = &[
 pub const UNITS: &[&str] = &["dt", "ns", "us", "µs", "ms", "s"];
 
 pub const IDENTS_ASCII: &[&str] = &["a", "b", "q", "x1", "_x1", "foo_bar", "c0", "Z", "__a"];
-pub const IDENTS_UNICODE: &[&str] = &["θ", "Δx", "ñ", "变量", "π2", "été"];
+pub const IDENTS_UNICODE: &[&str] = &["θ", "Δx", "ñ", "变量", "π2", "été", "μs", "μ", "π", "τ", "ℇ", "_q", "_tmp1"];
 pub const IDENTS_LOOKALIKE: &[&str] = &[
     "pragmatic", "pi", "OPENQASMx", "O", "p", "pr", "pragm", "dimension", "inv2", "OPEN", "im", "dts", "sx", "ifx",
     "elsewhere", "input1", "e3", "b1", "o7", "xF",
